@@ -21,6 +21,22 @@ CHECKS = {
         note=PAR_NOTE,
         design_ref="1.1, 1.2, 2/C01",
     ),
+    "C02": dict(
+        category="exploration",
+        engine="E4-enumerators",
+        technique="bounded-exhaustive enumeration (signatures x call shapes x argument slots x near-colliding typed values x cold/warm/fresh-process passes) end-to-end through the real Memory, undecorated function as reference",
+        text="Every signature with <= 3 (thorough 4) parameters as plain function, bound method, functools.partial and async def, with every accepted call shape, has every argument slot varied over 38 near-colliding typed values (1 / 1.0 / True, 'a' / b'a', list / tuple / set / frozenset / dict variants, -0.0, nan, ...) inside one cache directory, cold, warm through call_and_shelve().get() and warm in a fresh forked process; each returned value must equal the undecorated function's. All values share a directory, so every pair is checked for collisions.",
+        note="Functions are generated source files whose bodies return a typed rendering of what was bound. Fresh process = fork with the in-memory function table cleared; hash-seed variation is covered by C08. Lambdas/closures are outside the stated domain.",
+        design_ref="2/C02",
+    ),
+    "C06": dict(
+        category="exploration",
+        engine="E4-enumerators",
+        technique="bounded-exhaustive enumeration of groups of call forms that Signature.bind maps to one binding, executed through the real Memory with an execution counter and check_call_in_cache as oracle",
+        text="For every signature with <= 4 (thorough 5) parameters in four function kinds and every target binding, all equivalent call forms (positional / keyword, defaults omitted / spelled out, surplus keywords in both orders) are issued on one cache directory, the second half in a fresh process for every third group: exactly one execution, check_call_in_cache true exactly when the next call does not execute, no accepted call raises; then clear() / reduce_size(items_limit=0) must force a re-execution; ignore=[p] for every parameter; dict and set arguments rebuilt in another insertion order.",
+        note="Equivalence is defined by inspect.Signature.bind + apply_defaults. functools.partial objects are not inspected by joblib (documented, pinned by the test-suite): their re-executions are listed in known_findings.json by signature.",
+        design_ref="2/C06",
+    ),
     "C03": dict(
         category="exploration",
         engine="E4-enumerators",
